@@ -6,7 +6,7 @@ set -u
 ID="$1"; W=/tmp/seed/$ID; OUT=/tmp/seed/$ID.out
 export GOFLAGS=-mod=mod GOPROXY=off GOSUMDB=off GOTOOLCHAIN=local
 cd "$W" || exit 2
-DEMO=$(head -1 "$OUT/DEMO_PATH.txt" | tr -d ' \r')
+DEMO=$(head -1 "$OUT/DEMO_PATH.txt" | awk "{print \$1}" | tr -d "\r")
 CMD=$(grep -o "go test.*" "$OUT/DEMO_PATH.txt" | head -1)
 {
 echo "== demo file: $DEMO ; cmd: $CMD"
